@@ -683,3 +683,25 @@ def effects_of(prog, roots, classes=None):
             if any(p in e for p in pats):
                 out.setdefault(cls, []).append((e, prog.chain(parent, e)))
     return out, reach, ext
+
+
+def fact_is_present(rels, pred, variant_index=1):
+    """Some branch fact establishes that the Option/Result value selected by pred(term) is Some (variant 1) / Ok (variant 0):
+    via is_some()/is_ok(), the negation of is_none()/is_err(), or a match / let-else on the discriminant."""
+    for r in rels:
+        if r[0] == "Pred" and r[1] in ("is_some", "is_ok") and pred(values.strip_payload(r[2])):
+            return True
+        if r[0] in ("Eq", "Ne") and isinstance(r[1], tuple) and r[1][0] == "discr" and pred(values.strip_payload(r[1][1])) and isinstance(r[2], tuple) and r[2][0] == "int":
+            if (r[0] == "Eq" and r[2][1] == variant_index) or (r[0] == "Ne" and r[2][1] == 1 - variant_index):
+                return True
+    return False
+
+
+def fact_is_absent(rels, pred, variant_index=1):
+    for r in rels:
+        if r[0] == "NotPred" and r[1] in ("is_some", "is_ok") and pred(values.strip_payload(r[2])):
+            return True
+        if r[0] in ("Eq", "Ne") and isinstance(r[1], tuple) and r[1][0] == "discr" and pred(values.strip_payload(r[1][1])) and isinstance(r[2], tuple) and r[2][0] == "int":
+            if (r[0] == "Eq" and r[2][1] == 1 - variant_index) or (r[0] == "Ne" and r[2][1] == variant_index):
+                return True
+    return False
